@@ -1153,6 +1153,41 @@ def rule_r8(prog, res) -> None:
             res.ok("C01.R8", res.site(gb, "edges"), "the configured limits are merged into the grid, which is sorted and made unique")
         else:
             res.violation("C01.R8", gb, p.node or gb.node, "the grid returned for weighted counting does not contain the configured limits as edges or is not sorted / unique", key_extra="weight-grid-edges")
+    # the separation weights are applied as a weighted MEAN: the fine-grid counts are multiplied by w / sum(w) — of
+    # degree zero in the weights (homogeneity typing) — on the path that asks for weighting, and nowhere else
+    from .. import homog
+
+    users = [f for f in prog.funcs if f.module is gb.module and f is not gb and any(gb in prog.resolve_call(f, c).funcs() for c in calls_in(f)) and any(q for q in f.param_names() if "weight_scale" in q or "rweight" in q)]
+    if not users:
+        raise AnalysisError("C01.R8: the counting function that uses the weighting grid was not found")
+    for f in users:
+        res.touch(f)
+        ws = next(q for q in f.param_names() if "weight_scale" in q or "rweight" in q)
+        wdefs = [x for x in walk_no_nested(f.node) if isinstance(x, ast.Assign) and len(x.targets) == 1 and isinstance(x.targets[0], ast.Name) and any(isinstance(y, ast.BinOp) and isinstance(y.op, ast.Pow) and any(isinstance(z, ast.Name) and z.id == ws for z in ast.walk(y.right)) for y in ast.walk(x.value))]
+        if len(wdefs) != 1:
+            raise AnalysisError(f"C01.R8: the separation weights (… ** {ws}) of {f.short} were not found")
+        wname = wdefs[0].targets[0].id
+        atom = lambda e, wname=wname: homog.Deg.of({"w": 1}) if isinstance(e, ast.Name) and e.id == wname else None  # noqa: E731
+        applied = []
+        for x in walk_no_nested(f.node):
+            fac = None
+            if isinstance(x, ast.AugAssign) and isinstance(x.op, ast.Mult) and any(isinstance(y, ast.Name) and y.id == wname for y in ast.walk(x.value)):
+                fac = x.value
+            elif isinstance(x, ast.Assign) and isinstance(x.value, ast.BinOp) and isinstance(x.value.op, ast.Mult) and x is not wdefs[0] and any(isinstance(y, ast.Name) and y.id == wname for y in ast.walk(x.value)):
+                fac = x.value.right if any(isinstance(y, ast.Name) and y.id == wname for y in ast.walk(x.value.right)) else x.value.left
+            if fac is not None:
+                applied.append((x, fac))
+        if not applied:
+            res.violation("C01.R8", f, wdefs[0], f"the separation weights `{wname}` are computed but never multiplied into the counts: the weighted measurement silently equals the unweighted one", key_extra="weights-not-applied")
+            continue
+        for x, fac in applied:
+            d = homog.degree(fac, atom)
+            if isinstance(d, homog.Deg) and not d.exps:
+                res.ok("C01.R8", res.site(f, "weights normalised"), f"counts are multiplied by `{unparse(fac)[:40]}`, of degree zero in the weights (a weighted mean)")
+            elif isinstance(d, homog.Unknown_):
+                raise AnalysisError(f"C01.R8: cannot type the weight factor `{unparse(fac)[:50]}` ({d})")
+            else:
+                res.violation("C01.R8", f, x, f"the counts are multiplied by `{unparse(fac)[:50]}` ({d} in the separation weights) instead of by weights normalised to unit sum: the weighted counts scale with the number and size of the fine bins, normalisation against the random counts no longer cancels", key_extra="weights-not-normalised")
 
 
 def rule_r9(prog, res) -> None:
@@ -1459,6 +1494,29 @@ def rule_r10(prog, res) -> None:
                     res.ok("C01.R10", res.site(fi, f_), f"is the sum of weights of the counted tree of side {side}")
     if n < 7:
         raise AnalysisError(f"C01.R10: only {n} weight-sum instances typed, minimum 7")
+    # (d) the optional columns of a patch are delivered when they exist: `Patch.weights` / `Patch.redshifts` give the
+    # stored column exactly when the header says it is there, None otherwise (inverted, a weighted catalog is counted
+    # unweighted — or an unweighted one fails on a missing field)
+    pc = prog.find_class("Patch")
+    for attr in ("weights", "redshifts"):
+        m = pc.methods.get(attr)
+        if m is None or not m.is_property:
+            raise AnalysisError(f"C01.R10: Patch.{attr} is no property any more")
+        res.touch(m)
+        for has in (True, False):
+            def orc(t, has=has, attr=attr):
+                if isinstance(t, ast.Attribute) and t.attr == f"has_{attr}":
+                    return has
+                return None
+
+            rets = [p for p in symx.explore(prog, m, oracle=orc, inline=symx.inline_private_helpers(prog)) if p.outcome == "return"]
+            if not rets:
+                raise AnalysisError(f"C01.R10: Patch.{attr} has no returning path with has_{attr}={has}")
+            gives = [not (p.value is None or (isinstance(p.value, ast.Constant) and p.value.value is None)) for p in rets]
+            if all(g == has for g in gives):
+                res.ok("C01.R10", res.site(m, f"has_{attr}={has}"), "the stored column" if has else "None")
+            else:
+                res.violation("C01.R10", m, m.node, f"Patch.{attr} returns {'None' if has else 'data'} although the patch {'has' if has else 'has no'} {attr}: " + ("the column is ignored — trees, sums of weights and counts are built as if every object had weight one / no redshift" if has else "a field that is not stored is read"), key_extra=f"patch-accessor-{attr}-{has}")
 
 
 def rule_r11(prog, res) -> None:
